@@ -1,19 +1,15 @@
 (* C18 — model of pkg/jsonpath (Get / Set) over abstract JSON trees.
 
-   Two layers:
    * the pure tree layer ([jget], [jput], [blank]) for the documented path
      subset `$.a.b[0]` = lists of [Key s | Idx n];
-   * [jget_c] / [jset]: jsonpath.Get / jsonpath.Set as they behave today,
-     i.e. the tree layer followed by what the JSON -> YAML text round trip
-     (encoding/json -> ajson -> yaml.v3) does to strings ([codec_rt]).  The
-     codec chain itself is NOT modelled; [codec_rt] only records the two
-     observable effects that were found by probing the real code:
-       - a raw U+007F, U+0080..U+009F (except U+0085), U+FFFE or U+FFFF in
-         any string or key, or U+0085 in a key, makes yaml.v3 refuse the text
-         (Set / Get return an error);
-       - U+0085 (NEL) inside a string value is folded to one space (exact
-         for an isolated NEL between non-blank characters, which is what the
-         correspondence generates).
+   * [jget_c] / [jset]: jsonpath.Get / jsonpath.Set: the tree layer plus
+     Set's result shape (number of nodes updated, "unsupported value type").
+   The text round trip encoding/json -> ajson -> yaml.v3 is NOT modelled: on
+   the current code (escapeForYAML in jsonpath.go) it is the identity on
+   every JSON-shaped object, which the correspondence validates (every BMP
+   code point as value, sibling and key was probed).  Earlier revisions of
+   this file carried a [codec_rt] for U+0085 / U+007F / C1 / U+FFFE / U+FFFF;
+   those defects are fixed and their witnesses are corpus cases.
    The type is called [tv] so that it does not clash with Base/Json.v.
    No proofs in this file. *)
 From Coq Require Import List Bool Arith ZArith String Ascii.
@@ -113,84 +109,14 @@ Fixpoint is_prefix (p q : path) : bool :=
   end.
 Definition prefix_related (p q : path) : bool := is_prefix p q || is_prefix q p.
 
-(* ---- what the text round trip does to strings --------------------------- *)
-Definition b7F := byte 127.
-Definition bC2 := ascii_of_nat 194.
-Definition nel := String bC2 (byte 133).
-Definition uFFFE := String (ascii_of_nat 239) (String (ascii_of_nat 191) (byte 190)).
-Definition uFFFF := String (ascii_of_nat 239) (String (ascii_of_nat 191) (byte 191)).
-
-(* C2 80 .. C2 9F except C2 85 *)
-Fixpoint has_c1 (s : string) : bool :=
-  match s with
-  | EmptyString => false
-  | String c s' =>
-      match s' with
-      | String d _ =>
-          (Ascii.eqb c bC2 &&
-           let n := nat_of_ascii d in
-           Nat.leb 128 n && Nat.leb n 159 && negb (Nat.eqb n 133)) || has_c1 s'
-      | EmptyString => false
-      end
-  end.
-
-Definition str_reject (s : string) : bool :=
-  contains b7F s || has_c1 s || contains uFFFE s || contains uFFFF s.
-Definition has_nel (s : string) : bool := contains nel s.
-Definition key_reject (k : string) : bool := str_reject k || has_nel k.
-Definition nel_fix (s : string) : string :=
-  if has_nel s then replace_all s nel " " else s.
-Definition str_clean (s : string) : bool := negb (str_reject s) && negb (has_nel s).
-
-Fixpoint tree_bad (t : tv) : bool :=
-  match t with
-  | TStr s => str_reject s
-  | TArr l => existsb tree_bad l
-  | TObj kv => existsb (fun kx => key_reject (fst kx) || tree_bad (snd kx)) kv
-  | _ => false
-  end.
-
-Fixpoint tree_fix (t : tv) : tv :=
-  match t with
-  | TStr s => TStr (nel_fix s)
-  | TArr l => TArr (map tree_fix l)
-  | TObj kv => TObj (map (fun kx => (fst kx, tree_fix (snd kx))) kv)
-  | _ => t
-  end.
-
-(* text round trip of a whole document: refused, or read back *)
-Definition codec_rt (t : tv) : option tv :=
-  if tree_bad t then None else Some (tree_fix t).
-
-(* every string and key passes through the round trip unchanged *)
-Fixpoint tree_clean (t : tv) : bool :=
-  match t with
-  | TStr s => str_clean s
-  | TArr l => forallb tree_clean l
-  | TObj kv => forallb (fun kx => str_clean (fst kx) && tree_clean (snd kx)) kv
-  | _ => true
-  end.
-
 (* ---- jsonpath.Get / jsonpath.Set ---------------------------------------- *)
-Inductive jerr := JERoot | JEUnsupported | JECodec.
+Inductive jerr := JERoot | JEUnsupported.
 Inductive getres := GetOk (vs : list tv) | GetErr.
 Inductive setres := SetOk (t' : tv) (n : nat) | SetErr (e : jerr).
 
-Fixpoint map_opt {A B} (f : A -> option B) (l : list A) : option (list B) :=
-  match l with
-  | [] => Some []
-  | x :: r => match f x, map_opt f r with
-              | Some y, Some r' => Some (y :: r')
-              | _, _ => None
-              end
-  end.
-
-(* Get: each matching node is marshalled on its own and read back by yaml.v3 *)
-Definition jget_c (p : path) (t : tv) : getres :=
-  match map_opt codec_rt (jget p t) with
-  | Some vs => GetOk vs
-  | None => GetErr
-  end.
+(* Get: the matching nodes, each marshalled and read back on its own.
+   [GetErr] is kept for malformed expressions, which are outside [path]. *)
+Definition jget_c (p : path) (t : tv) : getres := GetOk (jget p t).
 
 Definition max_int64 : Z := 9223372036854775807.
 (* Set's type switch: bool, string, int, float64, list, map, nil.  A Go value
@@ -205,18 +131,13 @@ Definition settable (v : tv) : bool :=
 (* Set.  The root path `$` is outside the modelled subset (the result is
    unmarshalled INTO the existing map, which merges instead of replacing):
    [JERoot] is an out-of-model marker, excluded by every theorem because
-   they all start from a successful result. *)
+   they all start from a successful result or from a non-empty path. *)
 Definition jset (p : path) (v : tv) (t : tv) : setres :=
   match p with
   | [] => SetErr JERoot
   | _ =>
       match jput p v t with
       | None => SetOk t 0                    (* zero nodes found, none updated *)
-      | Some t1 =>
-          if negb (settable v) then SetErr JEUnsupported
-          else match codec_rt t1 with
-               | None => SetErr JECodec      (* yaml.Unmarshal refuses the text *)
-               | Some t2 => SetOk t2 1
-               end
+      | Some t1 => if settable v then SetOk t1 1 else SetErr JEUnsupported
       end
   end.
